@@ -70,7 +70,7 @@ def detect(mutdir, pids, tier="quick"):
     return res
 
 
-def benign(mutdir):
+def benign(mutdir, pids=None):
     name = "ben_" + os.path.basename(mutdir.rstrip("/"))
     wt = os.path.join(SCR, name)
     os.makedirs(SCR, exist_ok=True)
@@ -92,7 +92,7 @@ def benign(mutdir):
     finally:
         sh("git -C %s worktree remove --force %s" % (REPO, wt))
     if res["suite_passes"] and res["suite_passes_all_features"]:
-        d = detect(mutdir, ["C%02d" % i for i in range(1, 18)])
+        d = detect(mutdir, pids or ["C%02d" % i for i in range(1, 18)])
         res["alarms"] = {p: v["lines"] for p, v in d.items() if v["rc"] != 0}
         res["silent"] = sorted(p for p, v in d.items() if v["rc"] == 0)
     return res
@@ -103,6 +103,6 @@ if __name__ == "__main__":
     if cmd == "confirm":
         print(json.dumps(confirm(sys.argv[2], sys.argv[3] if len(sys.argv) > 3 else ""), indent=1))
     elif cmd == "benign":
-        print(json.dumps(benign(sys.argv[2]), indent=1))
+        print(json.dumps(benign(sys.argv[2], sys.argv[3:]), indent=1))
     elif cmd == "detect":
         print(json.dumps(detect(sys.argv[2], sys.argv[3:]), indent=1))
